@@ -138,6 +138,11 @@ class FormatDrift(ToolError):
     pass
 
 
+class MalformedTables(Exception):
+    """The emitted text was read without difficulty, but the tables it contains are inconsistent with its own
+    declarations (row/column counts). That is a property violation (C17), not a reading problem."""
+
+
 def _enum_variants(text, name):
     m = re.search(r"^enum %s \{\n(.*?)^\}" % re.escape(name), text, re.S | re.M)
     if not m:
@@ -216,7 +221,7 @@ def extract_tables(text, G_ts_decl, G_nts_decl):
         else:
             cells.append(["e", 0])
     if len(cells) != rows * cols:
-        raise FormatDrift("action table has %d cells, expected %d" % (len(cells), rows * cols))
+        raise MalformedTables("action table has %d cells, its declaration [[_; %d]; %d] promises %d" % (len(cells), cols, rows, rows * cols))
     action = [cells[r * cols:(r + 1) * cols] for r in range(rows)]
 
     gcols, grows, gbody = table_body(goto_tab)
@@ -232,7 +237,7 @@ def extract_tables(text, G_ts_decl, G_nts_decl):
             raise FormatDrift("unexpected goto cell %r" % ln)
         gcells.append(int(mm.group(2)) if mm.group(2) is not None else -1)
     if len(gcells) != grows * gcols:
-        raise FormatDrift("goto table has %d cells, expected %d" % (len(gcells), grows * gcols))
+        raise MalformedTables("goto table has %d cells, its declaration [[_; %d]; %d] promises %d" % (len(gcells), gcols, grows, grows * gcols))
     goto = [gcells[r * gcols:(r + 1) * gcols] for r in range(grows)]
     return {"start": start, "ts": ts, "nts": list(G_nts_decl), "action": action, "goto": goto}
 
